@@ -6,8 +6,22 @@ reproduce further random evaluations (this *observes* the degree bound) and
 then derivative relations are decided as coefficient identities, i.e. for all
 points of the reference cell.  A plain finite-difference cross-check at random
 points is the second, independent opinion.
+
+A coefficient identity is blind on sets of measure zero and the fit only ever
+passes rows of a float64 array, so in addition (audit 3): the members are
+evaluated at corners, faces, centre, exact zeros and nodes and must take the
+values of the polynomials there; other argument forms (list, tuple, strided,
+float32, integers) must denote the same point; all instances of a class are
+built first, called derivatives-first, judged in reverse order and asked again
+at the end; node positions come from literal tables (also MINI, constant
+elements, unpermuted Lagrange grids), bubble multipliers include 0, 0.1, a
+negative, an int, 1e-6 and 1e4, Lagrange intervals a long and a short one given
+as list / array.
 """
+import itertools
+
 import numpy as np
+from numpy.polynomial import chebyshev as _cheb
 
 from ..util import (cheb_der, cheb_eval_tensor, cheb_fit_tensor, cheb_nodes, maxabs, mono, monomials_tensor,
                     monomials_total, rng_for)
@@ -58,6 +72,99 @@ def entries(mask):
     return "+".join("(" + ",".join(str(i) for i in row) + ")" for row in idx[:8]) + ("+..." if len(idx) > 8 else "")
 
 
+def cheb_eval_points(coef, X, dim):
+    """``util.cheb_eval_tensor`` for many points at once (one matrix product instead of a loop over the points)."""
+    X = np.asarray(X, float).reshape(-1, dim)
+    n = coef.shape[0]
+    B = np.ones((len(X), 1))
+    for ax in range(dim):
+        B = (B[:, :, None] * _cheb.chebvander(X[:, ax], n - 1)[:, None, :]).reshape(len(X), -1)
+    return (B @ coef.reshape(n ** dim, -1)).reshape(len(X), *coef.shape[dim:])
+
+
+def in_cell(X, domain, lo, hi):
+    X = np.asarray(X, float)
+    if domain == "cube":
+        return np.all((X >= lo) & (X <= hi), axis=1)
+    return np.all(X >= 0, axis=1) & (X.sum(1) <= 1 + 1e-12)
+
+
+def special_points(dim, domain, lo, hi, nodes, cap=None):
+    """Points of the closed reference cell on which random samples and Chebyshev nodes never fall: corners, faces, the centre,
+    exact zeros, 1/3, 1/2, 1 (coordinates of the library's own quadrature points and nodes) and the nodes themselves.
+
+    ``cap``: for the tensor-product elements of arbitrary order (hundreds of nodes, costly evaluations) about ``cap`` lattice
+    points and ``cap // 2`` nodes are taken by index (every value still occurs on every axis).  Returns lattice and nodes."""
+    vals = sorted({lo, 0.5 * (lo + hi), hi} | {v for v in (0.0, 1.0 / 3.0, 0.5, 1.0) if lo <= v <= hi})
+    S = np.array(list(itertools.product(vals, repeat=dim)), float)
+    S = S[in_cell(S, domain, lo, hi)]
+    nodes = np.asarray(nodes, float).reshape(-1, dim)
+    nodes = nodes[in_cell(nodes, domain, lo, hi)]
+    if cap is not None and len(S) > cap:
+        diag = np.array([[v] * dim for v in vals])
+        S = np.vstack([diag, S[::-(-len(S) // cap)]])
+    if cap is not None and len(nodes) > cap // 2:
+        nodes = nodes[np.unique((np.arange(cap // 2) * 37) % len(nodes))]
+    return S, nodes
+
+
+def form_points(dim, domain, lo, hi):
+    """A handful of points of the cell for the argument-form clause (coordinates are dyadic fractions of the cell, i.e. exact in
+    float32 on the standard cells) and the ones among them whose coordinates are whole numbers (integer arguments)."""
+    if domain == "cube":
+        mid, half = 0.5 * (lo + hi), 0.5 * (hi - lo)
+        q = [(0.0, 0.0, 0.0), (-0.5, 0.5, 1.0), (0.5, -1.0, -0.25), (1.0, 0.0, -1.0)]
+        F = np.array([[mid + half * v for v in row[:dim]] for row in q])
+    else:
+        F = np.array([row[:dim] for row in [(0.0, 0.0, 0.0), (0.25, 0.5, 0.125), (0.5, 0.0, 0.25), (0.0, 1.0, 0.0)]])
+    F = np.unique(F, axis=0)
+    whole = F[np.all(F == np.rint(F), axis=1)]
+    return F, whole
+
+
+def _strided(x):
+    buf = np.zeros(2 * len(x) + 1)
+    buf[1::2] = x
+    return buf[1::2]
+
+
+# argument forms of one reference point: what test_element, user code and the regions pass (a row of a float64 array is the only
+# form the other clauses use)
+FORMS = [("list", lambda x: [float(v) for v in x]), ("tuple", lambda x: tuple(float(v) for v in x)),
+         ("strided", _strided), ("float32", lambda x: np.array(x, np.float32))]
+FORMS_WHOLE = [("int-list", lambda x: [int(v) for v in x]), ("int64", lambda x: np.array(x, np.int64)),
+               ("int32", lambda x: np.array(x, np.int32))]
+
+
+def first_calls(el, r):
+    """The very first calls on a fresh object, derivatives before ``function`` (the other clauses always call ``function`` first)."""
+    out = {"r": np.array(r, float)}
+    if callable(getattr(el, "hessian", None)):
+        out["hessian"] = np.array(el.hessian(out["r"].copy()), dtype=float)
+    out["gradient"] = np.array(el.gradient(out["r"].copy()), dtype=float)
+    out["function"] = np.array(el.function(out["r"].copy()), dtype=float)
+    return out
+
+
+def first_point(dim, domain, lo=-1.0, hi=1.0):
+    if domain == "cube":
+        return 0.5 * (lo + hi) + 0.5 * (hi - lo) * np.array([0.25, -0.5, 0.75][:dim])
+    return np.array([0.25, 0.5, 0.125][:dim])
+
+
+def revisit(run, mon, label, el, rec, unit):
+    """function/gradient/hessian depend on (object, point) only: the values recorded right after construction are returned again
+    after other instances of the class were built and used (state shared between instances, state carried between calls)."""
+    worst = 0.0
+    for m in ("function", "gradient", "hessian"):
+        if m in rec:
+            now = np.array(getattr(el, m)(rec["r"].copy()), dtype=float)
+            worst = max(worst, maxabs(now - rec[m]) / max(1.0, maxabs(rec[m])) if now.shape == rec[m].shape else np.inf)
+    run.compare(mon, "element=%s clause=instance-independence" % label, worst, 1e-14,
+                "%s: an element object returns other values after further instances were created and used" % label,
+                unit=unit + ":instance-independence", config=(unit, "instance-independence"))
+
+
 _Q4 = [(-1, -1), (1, -1), (1, 1), (-1, 1)]
 _H8 = [(-1, -1, -1), (1, -1, -1), (1, 1, -1), (-1, 1, -1), (-1, -1, 1), (1, -1, 1), (1, 1, 1), (-1, 1, 1)]
 _QE = [(0, 1), (1, 2), (2, 3), (3, 0)]
@@ -69,14 +176,24 @@ VTK_LAYOUT = {"Quad": (_Q4, [], None), "QuadraticQuad": (_Q4, _QE, None), "BiQua
               "Hexahedron": (_H8, [], None), "QuadraticHexahedron": (_H8, _HE, None), "TriQuadraticHexahedron": (_H8, _HE, "faces+centre"),
               "Triangle": (_T3, [], None), "QuadraticTriangle": (_T3, [(0, 1), (1, 2), (2, 0)], None),
               "Tetra": (_T4, [], None), "QuadraticTetra": (_T4, [(0, 1), (1, 2), (2, 0), (0, 3), (1, 3), (2, 3)], None),
-              "Line": ([(-1,), (1,)], [], None)}
+              "Line": ([(-1,), (1,)], [], None),
+              # MINI: the vertices in Triangle / Tetra order (a consistent exchange of two vertices in points and functions would
+              # invert every cell of a standard mesh); the position of the bubble point is not pinned (it is read nowhere)
+              "TriangleMINI": (_T3, [], None), "TetraMINI": (_T4, [], None),
+              # constant elements carry the vertices of the cell they live on
+              "ConstantQuad": (_Q4, [], None), "ConstantHexahedron": (_H8, [], None), "Vertex": ([(0,)], [], None)}
 
 
-def check_element(run, name, el, dim, domain, D, complete, nodal, bubble, rng, lo=-1.0, hi=1.0, label=None):
-    """All C04 clauses for one element object."""
+def check_element(run, name, el, dim, domain, D, complete, nodal, bubble, rng, lo=-1.0, hi=1.0, label=None, first=None,
+                  mult=None, unit=None, cap=None, forms=True):
+    """All C04 clauses for one element object.
+
+    ``first``: values of the first calls on the fresh object (:func:`first_calls`), ``mult``: the bubble multiplier the caller
+    passed to the constructor (shadow of the argument), ``unit``: name of the must-reach units (default: the label), ``cap``: see
+    :func:`special_points`, ``forms``: whether the argument-form clause is run for this object."""
     label = label or name
     mon = "element." + name
-    unit = label
+    unit = unit or label
     n = D + 3
     # grid on [-1,1]^dim in the fit variable x; reference coordinate r = mid + half*x
     mid, half = 0.5 * (lo + hi), 0.5 * (hi - lo)
@@ -99,8 +216,10 @@ def check_element(run, name, el, dim, domain, D, complete, nodal, bubble, rng, l
     Px = (P - mid) / half
     eH = maxabs(cheb_eval_tensor(cH, Px, dim) - np.array([el.function(r) for r in P]))
     eG = maxabs(cheb_eval_tensor(cG, Px, dim) - np.array([el.gradient(r) for r in P]))
-    scale = max(1.0, maxabs(G))
-    ok = run.compare(mon, "element=%s clause=polynomial-degree" % label, max(eH, eG) / scale, 1e-9,
+    # gradient errors relative to the size of the gradient on this cell (no floor of one: on a long interval the gradient is small;
+    # never larger than the former max(1, |G|), i.e. never more tolerant)
+    scale = maxabs(G) if maxabs(G) > 0 else 1.0
+    ok = run.compare(mon, "element=%s clause=polynomial-degree" % label, max(eH / max(1.0, scale), eG / scale), 1e-9,
                      "%s: function/gradient are not polynomials of per-variable degree <= %d" % (label, n - 1),
                      unit=unit + ":degree")
     if has_hess:
@@ -140,6 +259,58 @@ def check_element(run, name, el, dim, domain, D, complete, nodal, bubble, rng, l
                     unit=unit + ":hessian-symmetry", config=(label, "hessian-symmetry"))
     else:
         run.skip(mon, "no hessian provided")
+
+    # (3b) isolated points: a coefficient identity says nothing about a value that deviates on a set of measure zero (a mask
+    # ``r == 0``, ``0**0``, a branch at a node or on a face).  function / gradient / hessian at the corners, faces, centre, exact
+    # zeros, 1/3, 1/2 and at the nodes must be the values of the polynomials they are everywhere else.
+    Fp, whole = form_points(dim, domain, lo, hi)
+    S, Sn = special_points(dim, domain, lo, hi, el.points, cap)
+    # (function at the nodes of the arbitrary-order elements is the nodal clause below, not repeated here)
+    nfun = len(S) + len(Fp) + (len(Sn) if cap is None else 0)
+    S = np.vstack([S, Fp, Sn])
+    Sx = (S - mid) / half
+    members = [("function", cH, max(1.0, maxabs(H))), ("gradient", cG, scale)] + ([("hessian", cHH, max(1.0, maxabs(HH)))] if has_hess else [])
+    for m, c, sc in members:
+        ns = nfun if m == "function" else len(S)
+        got = np.array([np.asarray(getattr(el, m)(r), dtype=float) for r in S[:ns]])
+        exp = cheb_eval_points(c, Sx[:ns], dim)
+        e = np.abs(got - exp).reshape(ns, -1).max(1) if got.shape == exp.shape else np.full(ns, np.inf)
+        e = np.where(np.isfinite(e), e, np.inf)
+        i = int(np.argmax(e))
+        run.compare(mon, "element=%s clause=special-points-%s" % (label, m), e[i] / sc, 1e-9,
+                    "%s: %s at the isolated point r=%s (corner / face / centre / exact zero / node) is not the value of the polynomial "
+                    "it is on the rest of the cell" % (label, m, np.round(S[i], 6).tolist()),
+                    unit=unit + ":special-points-" + m, config=(label, "special-points", m, ns))
+    # ... and so must the values of the very first calls on the fresh object (derivatives before function)
+    if first is not None:
+        fx = (first["r"] - mid) / half
+        worst = 0.0
+        for m, c, sc in members:
+            exp = cheb_eval_points(c, fx, dim)[0]
+            worst = max(worst, maxabs(first[m] - exp) / sc if first[m].shape == exp.shape else np.inf)
+        run.compare(mon, "element=%s clause=first-call" % label, worst, 1e-9,
+                    "%s: hessian / gradient called before function on a fresh object differ from the later values" % label,
+                    unit=unit + ":first-call", config=(label, "first-call"))
+    # (3c) argument forms: list, tuple, strided view, float32 and (at points with whole-number coordinates) integers denote the
+    # same point as the float64 row every other clause passes; the reference is the value for that row, which the clause above
+    # has just judged against the polynomial (these points are part of S), so that a defect at a point is reported once
+    for flist, pts_f in ((FORMS, Fp), (FORMS_WHOLE, whole)):
+        if not forms or not len(pts_f):
+            continue
+        exps = [[np.asarray(getattr(el, m)(np.array(x, dtype=float)), dtype=float) for x in pts_f] for m, c, sc in members]
+        for fname, conv in flist:
+            if fname == "float32" and not np.all(pts_f.astype(np.float32) == pts_f):
+                run.skip(mon, "float32 form: the points of this cell are not exact in float32")
+                continue
+            worst = 0.0
+            for (m, c, sc), exp in zip(members, exps):
+                for x, ex in zip(pts_f, exp):
+                    got = np.asarray(getattr(el, m)(conv(x)))
+                    worst = max(worst, maxabs(got.astype(float) - ex) / sc if got.shape == ex.shape else np.inf)
+            # float32: the point is exact in float32 on the standard cells, only the arithmetic may be single precision
+            run.compare(mon, "element=%s clause=argument-form form=%s" % (label, fname), worst, 1e-4 if fname == "float32" else 1e-9,
+                        "%s: function/gradient/hessian for a point given as %s differ from the values for the float64 array" % (label, fname),
+                        unit=unit + ":argument-form", config=(label, "argument-form", fname))
 
     # FD second opinion at random points
     h = 1e-6 * half
@@ -207,7 +378,7 @@ def check_element(run, name, el, dim, domain, D, complete, nodal, bubble, rng, l
             comb = np.tensordot(cH[..., :nn], mono(nodal_pts, e), axes=(-1, 0))
         else:
             comb = cH[..., 0] * 1.0  # constant element: reproduces constants only
-        err = maxabs(comb - cm) / max(1.0, maxabs(m_grid))  # relative to the size of the monomial on the cell (intervals away from [-1, 1])
+        err = maxabs(comb - cm) / maxabs(m_grid)  # relative to the size of the monomial on the cell (intervals away from [-1, 1], short and long ones)
         if err > worst:
             worst, worst_e = err, e
     run.compare(mon, "element=%s clause=completeness monomial=%s" % (label, worst_e if worst > TOL else "-"),
@@ -222,9 +393,18 @@ def check_element(run, name, el, dim, domain, D, complete, nodal, bubble, rng, l
             full = np.insert(bary, f, 0.0, axis=1)  # barycentric with zero at f
             pf = full[:, 1:]  # r = barycentric coords 1..dim (vertex 0 is origin)
             worst = max(worst, max(abs(np.asarray(el.function(r), float)[bubble]) for r in pf))
-        run.compare(mon, "element=%s clause=bubble-boundary" % label, worst, 1e-12,
+        # absolute bound for the multipliers up to 256, beyond that relative to the multiplier (round-off of 1 - r - s times a)
+        run.compare(mon, "element=%s clause=bubble-boundary" % label, worst, 1e-12 * max(1.0, abs(float(mult if mult is not None else 1.0)) / 256.0),
                     "%s: bubble function does not vanish on the cell boundary" % label,
                     unit=unit + ":bubble", config=(label, "bubble"))
+
+
+def fixed_multipliers(dim, tier):
+    out = [("0", 0), ("0.1", 0.1), ("-5", -5.0), ("int", 256 if dim == 2 else 27), ("1e-6", 1e-6), ("1e4", 1e4)]
+    if tier != "quick":
+        # (no float32 multiplier: with list arguments the bubble is then evaluated in single precision - the caller's choice)
+        out += [("-0.0", -0.0), ("0-d", np.array(2.5))]
+    return out
 
 
 def case_class(name):
@@ -234,16 +414,49 @@ def case_class(name):
                 continue
             nm, fac, dim, domain, D, complete, nodal, bubble = row
             rng = rng_for(run.seed, "C04", nm)
-            check_element(run, nm, fac(), dim, domain, D, complete, nodal, bubble, rng)
+            x0 = first_point(dim, domain)
+            # all instances are built first (each one is called once right after its construction, derivatives first), then they
+            # are judged in reverse order and finally asked again: regions of mixed fields keep several element objects alive
+            objs = [(None, nm, fac())]
+            recs = [first_calls(objs[0][2], x0)]
             if bubble is not None:
                 import felupe as fem
                 cls = getattr(fem.element, nm)
                 mults = [0.5, 27.0 if dim == 2 else 256.0] + list(rng.uniform(-3, 40, 2 if run.tier == "quick" else 8))
                 for a in mults:
-                    check_element(run, nm, cls(bubble_multiplier=float(a)), dim, domain, D, complete, nodal, bubble,
-                                  rng, label="%s" % nm)
-                    run.configs.add("%s bubble_multiplier=%.3g" % (nm, a))
+                    objs.append((float(a), nm, cls(bubble_multiplier=float(a))))
+                    recs.append(first_calls(objs[-1][2], x0))
+                # "all bubble multipliers": zero, the default of the MINI regions (0.1), a negative one, an int, a tiny and a
+                # large one, passed as they are (no float()); scheduled for every seed, with must-reach units of their own
+                for tag, a in fixed_multipliers(dim, run.tier):
+                    objs.append((a, "%s[a=%s]" % (nm, tag), cls(bubble_multiplier=a)))
+                    recs.append(first_calls(objs[-1][2], x0))
+            for (a, unit, el), rec in list(zip(objs, recs))[::-1]:
+                check_element(run, nm, el, dim, domain, D, complete, nodal, bubble, rng, label="%s" % nm, first=rec, mult=a, unit=unit)
+                if a is not None:
+                    run.configs.add("%s bubble_multiplier=%.3g" % (nm, float(a)))
+            for (a, unit, el), rec in zip(objs, recs):
+                revisit(run, "element." + nm, nm, el, rec, unit)
     return fn
+
+
+def lagrange_intervals(order, dim, permute, tier):
+    """(tag, constructor argument, lo, hi) of the intervals other than the default one; scheduled by indices."""
+    # moderate distances from the origin only (the monomial Vandermonde matrix of the implementation loses digits far away: not
+    # claimed)
+    ivs = [(0.0, 1.0)] if dim == 3 and tier == "quick" else [(0.0, 1.0), (-3.0, -1.0)] + ([(2.0, 5.0)] if order <= 4 else [])
+    if dim == 3 and order > 3:
+        ivs = ivs[:1] if tier == "thorough" else []
+    out = [("", iv, iv[0], iv[1]) for iv in ivs]
+    # other forms and sizes of the argument: a long interval as a list of ints, a short one as an array (both centred scalings of
+    # the standard cells, i.e. as well conditioned as these); quick tier: every second (order, dim) by index, the long one with
+    # and the short one without permutation, in 3D for order 1 only
+    extra = [(":long", [-500, 500], -500.0, 500.0), (":short", np.array([-1e-3, 1e-3]), -1e-3, 1e-3)]
+    if dim == 3 and order > 3:
+        extra = extra[:1] if tier == "thorough" else []
+    elif tier == "quick":
+        extra = [extra[0 if permute else 1]] if (order + dim) % 2 == 0 and (dim < 3 or order == 1) else []
+    return out + extra
 
 
 def case_lagrange(order, dim, permute):
@@ -276,23 +489,47 @@ def case_lagrange(order, dim, permute):
             else:
                 run.fail("element.ArbitraryOrderLagrange", "element=%s clause=node-layout" % label,
                          "%s: points are not ordered vertices -> edge interiors -> face interiors -> volume interior" % label)
-        check_element(run, "ArbitraryOrderLagrange", el, dim, "cube", order, ("tensor", order), True, None, rng,
-                      label=label)
-        # other intervals (constructor argument): the basis must adapt to them; moderate distances from the origin only (the
-        # monomial Vandermonde matrix of the implementation loses digits far away: not claimed)
-        ivs = [(0.0, 1.0)] if dim == 3 and run.tier == "quick" else [(0.0, 1.0), (-3.0, -1.0)] + ([(2.0, 5.0)] if order <= 4 else [])
-        if dim == 3 and order > 3:
-            ivs = ivs[:1] if run.tier == "thorough" else []
-        for lo_, hi_ in ivs:
-            el2 = fem.element.ArbitraryOrderLagrange(order=order, dim=dim, permute=permute, interval=(lo_, hi_))
-            check_element(run, "ArbitraryOrderLagrange", el2, dim, "cube", order, ("tensor", order), True, None, rng,
-                          lo=lo_, hi=hi_, label=label + "[interval]")
-            if permute:
+        # all variants are built first (default interval and the other ones; each is called once right after its construction,
+        # gradient first), then judged in reverse order and finally asked again (a table shared between instances of one order
+        # would be overwritten by the later ones)
+        x0 = first_point(dim, "cube")
+        cap = 48 if run.tier == "quick" else 128
+        variants = [("", None, -1.0, 1.0, el, first_calls(el, x0))]
+        for tag, arg, lo_, hi_ in lagrange_intervals(order, dim, permute, run.tier):
+            el2 = fem.element.ArbitraryOrderLagrange(order=order, dim=dim, permute=permute, interval=arg)
+            variants.append((tag, arg, lo_, hi_, el2, first_calls(el2, first_point(dim, "cube", lo_, hi_))))
+        for iv, (tag, arg, lo_, hi_, el2, rec) in list(enumerate(variants))[::-1]:
+            if arg is None:
+                check_element(run, "ArbitraryOrderLagrange", el2, dim, "cube", order, ("tensor", order), True, None, rng,
+                              label=label, first=rec, cap=cap)
+            else:
+                # (argument forms: the code is the same on every interval; quick tier: default and first other interval only)
+                check_element(run, "ArbitraryOrderLagrange", el2, dim, "cube", order, ("tensor", order), True, None, rng,
+                              lo=lo_, hi=hi_, label=label + "[interval]", first=rec, unit=label + "[interval%s]" % tag, cap=cap,
+                              forms=run.tier != "quick" or iv == 1)
+            P2 = np.asarray(el2.points, float)
+            big = max(1.0, abs(lo_), abs(hi_))
+            if permute and arg is not None:
                 from ..oracles.cells import vtk_lagrange_grid
                 run.compare("element.ArbitraryOrderLagrange", "element=%s[interval] clause=node-layout-within-blocks" % label,
-                            maxabs(np.asarray(el2.points, float) - (lo_ + (hi_ - lo_) * vtk_lagrange_grid(order, dim) / order)), 1e-12,
+                            maxabs(P2 - (lo_ + (hi_ - lo_) * vtk_lagrange_grid(order, dim) / order)), 1e-12 * max(1.0, big / 5.0),
                             "%s: nodes of the element on another interval are not the scaled VTK grid positions" % label,
                             unit="ArbitraryOrderLagrange:vtk-order[interval]", config=("lagrange-order-interval", order, dim, lo_))
+            if not permute:
+                # permute=False: the order of the nodes is not documented, their set is: the full tensor grid of order+1 equidistant
+                # positions per axis on the requested interval (nodal / completeness read the positions from the element itself;
+                # an element that ignores ``interval`` in points and basis alike satisfies both)
+                idx = np.rint((P2 - lo_) / (hi_ - lo_) * order)
+                full = P2.shape == ((order + 1) ** dim, dim) and len(np.unique(idx, axis=0)) == (order + 1) ** dim \
+                    and idx.min() >= 0 and idx.max() <= order
+                run.compare("element.ArbitraryOrderLagrange", "element=%s%s clause=node-grid" % (label, "[interval]" if arg is not None else ""),
+                            maxabs(P2 - (lo_ + (hi_ - lo_) * idx / order)) / big if full else np.inf, 1e-13,
+                            "%s: points are not the tensor grid of order+1 equidistant positions on the interval" % label,
+                            unit="ArbitraryOrderLagrange:node-grid" + ("[interval]" if arg is not None else ""),
+                            config=("lagrange-node-grid", order, dim, lo_, hi_))
+        for tag, arg, lo_, hi_, el2, rec in variants:
+            revisit(run, "element.ArbitraryOrderLagrange", label + ("[interval]" if arg is not None else ""), el2, rec,
+                    label + ("[interval%s]" % tag if arg is not None else ""))
     return fn
 
 
@@ -330,6 +567,25 @@ def _required():
         if not (dim == 3 and order > 3):
             req += [lab + "[interval]:gradient", lab + "[interval]:nodal", lab + "[interval]:completeness"]
     req += ["ArbitraryOrderLagrange:vtk-order", "ArbitraryOrderLagrange:vtk-order[interval]"]
+    # audit 3: isolated points, first calls, argument forms, instance independence for every class and Lagrange variant; the fixed
+    # bubble multipliers; node grid of the unpermuted Lagrange elements; long / short intervals as scheduled in the quick tier
+    for n in CLASS_NAMES:
+        req += [n + ":special-points-function", n + ":special-points-gradient", n + ":first-call", n + ":argument-form",
+                n + ":instance-independence", n + ":node-layout"]
+        if n in hess:
+            req.append(n + ":special-points-hessian")
+        if n.endswith("MINI"):
+            for tag, a in fixed_multipliers(2, "quick"):
+                req += ["%s[a=%s]:%s" % (n, tag, c) for c in ("gradient", "hessian", "bubble", "special-points-gradient",
+                                                             "instance-independence")]
+    for order, dim, permute in lagrange_units():
+        lab = "ArbitraryOrderLagrange(order=%d,dim=%d,permute=%s)" % (order, dim, permute)
+        req += [lab + ":special-points-function", lab + ":special-points-gradient", lab + ":first-call", lab + ":argument-form",
+                lab + ":instance-independence"]
+        for tag, arg, lo_, hi_ in lagrange_intervals(order, dim, permute, "quick"):
+            req += [lab + "[interval%s]:%s" % (tag, c) for c in ("gradient", "nodal", "completeness", "special-points-gradient",
+                                                                  "instance-independence")]
+    req += ["ArbitraryOrderLagrange:node-grid", "ArbitraryOrderLagrange:node-grid[interval]"]
     return req
 
 
@@ -339,8 +595,13 @@ SPEC = {
     "rule": ("complete enumeration of the 16 element classes and ArbitraryOrderLagrange(order 1..6, dim 1..3, permute "
              "True/False); per element the real function/gradient/hessian are sampled on a (D+3)^dim Chebyshev grid, the "
              "interpolant is confirmed on 48 further random points and derivative/completeness relations are compared "
-             "coefficient-wise (identity for all reference points); a configuration is distinct by (element, clause[, "
-             "bubble multiplier]) and non-trivial when at least one coefficient comparison was made for it"),
+             "coefficient-wise (identity for all reference points); the members are also evaluated at the isolated points "
+             "{lo, mid, hi, 0, 1/3, 1/2, 1}^dim and the nodes (by index at most 48 / 128 lattice points and nodes for the large "
+             "Lagrange elements) against the interpolant, with list / tuple / strided / float32 / integer arguments, "
+             "derivatives-first on the fresh object and again after all other instances were used; fixed bubble multipliers "
+             "0, 0.1, -5, int, 1e-6, 1e4 and a long / short Lagrange interval are scheduled by index; a configuration is "
+             "distinct by (element, clause[, bubble multiplier]) and non-trivial when at least one coefficient comparison "
+             "was made for it"),
     "assumptions": [
         "the degree bound D+2 per variable is observed on 48 random points, not proved",
         "numpy.polynomial.chebyshev and numpy.linalg are trusted",
